@@ -193,9 +193,77 @@ fn check_under_dryoc(cx: &mut Ctx, origin: &str, s: &str, pw: &[u8], rng: &mut c
     cx.cover("hash_len", &format!("{}", d.hash.len()));
 }
 
+/// valid strings with arbitrary (not hashable in reasonable time) cost fields: parse -> re-encode must be the identity
+/// and needs_rehash must follow the rule; no hash is computed, so every u32 cost is in reach
+fn parse_only(cx: &mut Ctx, idx0: &mut u64) {
+    const M: [u32; 16] = [8, 9, 1023, 1024, 65535, 65536, 1 << 20, (1 << 22) - 1, 1 << 22, (1 << 22) + 1, 1 << 24, (1 << 31) - 1, 1 << 31, (1 << 31) + 1, u32::MAX - 1, u32::MAX];
+    const T: [u32; 12] = [1, 2, 3, 255, 256, 65535, 65536, (1 << 31) - 1, 1 << 31, (1 << 31) + 1, u32::MAX - 1, u32::MAX];
+    let nrand = cx.tier.pick(2usize, 200, 20_000);
+    let total = M.len() * T.len() + nrand;
+    for i in 0..total {
+        *idx0 += 1;
+        if !cx.mine(*idx0) {
+            continue;
+        }
+        let mut rng = cx.rng.fork(*idx0);
+        let (m, t) = if i < M.len() * T.len() { (M[i / T.len()], T[i % T.len()]) } else { (rng.u64() as u32 >> rng.below(29), (rng.u64() as u32 >> rng.below(32)).max(1)) };
+        let m = m.max(8);
+        let id = rng.chance(1, 2);
+        let std = rng.chance(1, 2);
+        let (sl, hl) = if std { (16, 32) } else { (rng.range(8, 64), rng.range(16, 128)) };
+        let salt = rng.bytes(sl);
+        let hash = rng.bytes(hl);
+        let s = encode(if id { "argon2id" } else { "argon2i" }, m, t, &salt, &hash);
+        cx.key(&format!("parse_only m={} t={} {}", m, t, id));
+        let case = || json!({"origin":"parse_only","string":s});
+        if let Some(r) = call(cx, "C10|PwHash::from_string", "PwHash::from_string", case, || PwHash::<Vec<u8>, Vec<u8>>::from_string(&s)) {
+            match r {
+                Ok(ph) => {
+                    if let Some(s2) = call(cx, "C10|PwHash::to_string", "PwHash::to_string", case, || ph.to_string()) {
+                        cx.eval();
+                        if s2 != s {
+                            cx.violation(&format!("C10|PwHash::to_string|reencoding_differs|parse_only|{}", if m >= 1 << 22 { "m>=2^22" } else if t >= 1 << 31 { "t>=2^31" } else { "other" }), json!({"reencoded":s2,"case":case()}));
+                        }
+                    }
+                }
+                Err(e) => cx.violation("C10|PwHash::from_string|rejects_valid_string|parse_only", json!({"err":e.to_string(),"case":case()})),
+            }
+        }
+        // needs_rehash: rule, and libsodium's own answer for its string shape
+        for (ops, mem_kib) in [(t as u64, m as u64), (t as u64 + 1, m as u64), (t as u64, m as u64 + 1), (t as u64, (m as u64) ^ (1 << 22)), ((t as u64) ^ (1 << 31), m as u64), (t.max(2) as u64 - 1, m as u64)] {
+            if ops == 0 || mem_kib < 8 {
+                continue;
+            }
+            let memlimit = (mem_kib * 1024) as usize + rng.below(1024);
+            let want = ops != t as u64 || mem_kib != m as u64;
+            let c2 = || json!({"string":s,"opslimit":ops,"memlimit":memlimit,"want":want});
+            if let Some(r) = call(cx, "C10|crypto_pwhash_str_needs_rehash", "crypto_pwhash_str_needs_rehash", c2, || crypto_pwhash_str_needs_rehash(&s, ops, memlimit)) {
+                cx.eval();
+                match r {
+                    Ok(b) if b == want => {}
+                    Ok(_) => cx.violation(&format!("C10|crypto_pwhash_str_needs_rehash|wrong_answer|{}", if want { "says_no_rehash_needed_but_costs_differ" } else { "says_rehash_needed_but_costs_match" }), c2()),
+                    Err(e) => cx.violation("C10|crypto_pwhash_str_needs_rehash|err_on_valid_string", json!({"err":e.to_string(),"case":c2()})),
+                }
+                if std && id && ops <= u32::MAX as u64 && mem_kib <= 4_294_967_295 {
+                    if let Some(n) = na::pwhash_str_needs_rehash(&s, ops, memlimit) {
+                        if n >= 0 && (n == 1) != want {
+                            cx.violation("HARNESS|C10|needs_rehash_rule_differs_from_libsodium", c2());
+                        } else if n >= 0 {
+                            cx.cover("parse_only", "needs_rehash_rule_confirmed_by_libsodium");
+                        }
+                    }
+                }
+            }
+        }
+        cx.cover("parse_only", if m >= 1 << 22 { "m>=2^22" } else { "m<2^22" });
+        cx.cover("parse_only", if t >= 1 << 31 { "t>=2^31" } else { "t<2^31" });
+    }
+}
+
 pub fn run(cx: &mut Ctx) {
     let n = cx.tier.pick(6usize, 600, 300_000);
     let mut idx = 0u64;
+    parse_only(cx, &mut idx);
     for i in 0..n {
         idx += 1;
         if !cx.mine(idx) {
@@ -217,7 +285,8 @@ pub fn run(cx: &mut Ctx) {
             }
         }
         let ops = rng.range(1, 4) as u64;
-        let mem_kib = *rng.pick(&[8usize, 9, 16, 31, 64, 128, 256]);
+        // mostly small; one case in 16 has segments longer than one address block (128) and not a multiple of it
+        let mem_kib = if rng.chance(1, 16) { *rng.pick(&[516usize, 600, 1000, 1500]) } else { *rng.pick(&[8usize, 9, 16, 31, 64, 128, 256]) };
         let memlimit = mem_kib * 1024 + if i % 3 == 0 { rng.below(1024) } else { 0 };
         cx.cover("opslimit", &format!("{}", ops));
         cx.cover("mem_kib", &format!("{}", mem_kib));
